@@ -89,7 +89,7 @@ theorem addNat_spec (es : List (Nat × Nat)) (G : DiG)
 theorem ofEdges_eq (n : Nat) (es : List (Nat × Nat)) : ofEdges n es = (init n).addNat es := rfl
 
 /-- `DirectedGraph(n)` followed by in-range `add_edge` calls that all go upwards -/
-theorem ofEdges_spec (n : Nat) (es : List (Nat × Nat))
+theorem ofEdges_spec_gb (n : Nat) (es : List (Nat × Nat))
     (hin : ∀ e ∈ es, 1 ≤ e.1 ∧ e.1 ≤ n ∧ 1 ≤ e.2 ∧ e.2 ≤ n) (hup : ∀ e ∈ es, e.1 < e.2) :
     ∃ G, ofEdges n es = .ok G ∧ G.n = n ∧ (∀ e, e ∈ G.edgeset ↔ e ∈ es) ∧ G.stillDag = true ∧
       (es.Nodup → G.m = es.length) := by
@@ -153,7 +153,7 @@ theorem addEdge_error (G : SimpleG) (u v : Int) (e : Err) (h : G.addEdge u v = .
   · simp only at h
     split at h <;> simp at h
 
-theorem addEdgesFrom_error (es : List (Int × Int)) (G : SimpleG) (e : Err)
+theorem addEdgesFrom_error_gb (es : List (Int × Int)) (G : SimpleG) (e : Err)
     (h : G.addEdgesFrom es = .error e) : e = .valueError := by
   induction es generalizing G with
   | nil => simp [addEdgesFrom, List.foldlM, pure, Except.pure] at h
@@ -234,7 +234,7 @@ theorem ofEdges_eq (n : Nat) (es : List (Nat × Nat)) : ofEdges n es = (init n).
 theorem sym_init (n : Nat) : (init n).Sym := by intro a b h; simp [init] at h
 
 /-- `Graph(n)` followed by in-range `add_edge(u, v)` calls with `u < v`, no call repeated -/
-theorem ofEdges_spec (n : Nat) (es : List (Nat × Nat))
+theorem ofEdges_spec_gb (n : Nat) (es : List (Nat × Nat))
     (hin : ∀ e ∈ es, 1 ≤ e.1 ∧ e.1 < e.2 ∧ e.2 ≤ n) (hnd : es.Nodup) :
     ∃ G, ofEdges n es = .ok G ∧ G.n = n ∧ G.m = es.length ∧ G.Sym ∧
       (∀ e, e ∈ G.edgeset ↔ e ∈ es ∨ (e.2, e.1) ∈ es) := by
